@@ -41,6 +41,13 @@ type spec struct {
 	Both    bool   `json:"both,omitempty"`
 	Procs   int    `json:"procs,omitempty"`
 	Yield   bool   `json:"yield,omitempty"`
+	// knocking (a PAIR peer turned away while the other side already has a partner)
+	Script string `json:"script,omitempty"` // per turned-away attempt: D accepted, closed by the peer before Dial returns; L accepted, closed right after; R not even accepted
+	Hook   string `json:"hook,omitempty"`   // what the application's PipeEventAttached hook does: none | sleep | waitclose
+	Reconn int    `json:"reconn_ms,omitempty"`
+	MaxRec int    `json:"maxreconn_ms,omitempty"`
+	Asynch bool   `json:"asynch,omitempty"`
+	Peer   string `json:"peer,omitempty"` // protocol of the waiting peer (real-socket variant)
 }
 
 var qlens = []int{0, 1, 2, 128}
@@ -77,6 +84,37 @@ func TestC02(t *testing.T) {
 		cases = append(cases, mon.CaseSpec{Name: "inflight-loss", Spec: spec{Kind: "inflightloss", Proto: []string{"push", "xpush", "pair", "xpair", "pair1", "xpair1"}[i%6]}})
 		cases = append(cases, mon.CaseSpec{Name: "race-connect", Spec: spec{Kind: "race", Proto: []string{"pair", "pair1", "xpair", "xpair1"}[i%4], Msgs: 150 + rnd.Intn(150), Procs: procs[rnd.Intn(3)], Yield: rnd.Intn(2) == 0}})
 	}
+	// knocking: the waiting (dialing) PAIR peer is turned away a few times and must get through afterwards
+	for i, kn := 0, r.Pick(48, 2000); i < kn; i++ {
+		k := 1 + rnd.Intn(5)
+		script := ""
+		for j := 0; j < k; j++ {
+			script += string("DDDLLR"[rnd.Intn(6)])
+		}
+		sp := spec{Kind: "knockvt", Proto: []string{"pair", "pair1", "xpair", "xpair1"}[i%4], Hook: []string{"none", "sleep", "sleep", "waitclose"}[rnd.Intn(4)],
+			Reconn: 1 + rnd.Intn(3), MaxRec: []int{0, 5, 10}[rnd.Intn(3)], Asynch: rnd.Intn(2) == 0, Msgs: 3 + rnd.Intn(6), Procs: procs[rnd.Intn(3)], Yield: rnd.Intn(2) == 0}
+		if !strings.ContainsAny(script, "DL") {
+			script += "D"
+		}
+		if !sp.Asynch && script[0] == 'R' {
+			script = "D" + script[1:] // a synchronous Dial that fails is simply reported to the caller: nothing to wait for
+		}
+		sp.Script = script
+		cases = append(cases, mon.CaseSpec{Name: "knock-vt/" + sp.Proto, Spec: sp})
+	}
+	ktrans := []string{"inproc", "tcp", "ipc"}
+	if r.Thorough() {
+		ktrans = append(ktrans, "tls+tcp", "ws")
+	}
+	for i, kn := 0, r.Pick(24, 1000); i < kn; i++ {
+		sp := spec{Kind: "knockreal", Proto: []string{"pair", "pair1", "xpair"}[i%3], Tran: ktrans[rnd.Intn(len(ktrans))], Peers: 2 + rnd.Intn(5), Hook: []string{"none", "sleep", "sleep"}[rnd.Intn(3)],
+			Reconn: 1 + rnd.Intn(3), MaxRec: []int{0, 5, 10}[rnd.Intn(3)], Asynch: rnd.Intn(2) == 0, Msgs: 3 + rnd.Intn(6), Procs: procs[rnd.Intn(3)], Yield: rnd.Intn(2) == 0}
+		sp.Peer = hx.PeerOf[sp.Proto]
+		if sp.Peer == "pair" && rnd.Intn(2) == 0 {
+			sp.Peer = "xpair"
+		}
+		cases = append(cases, mon.CaseSpec{Name: "knock-real/" + sp.Proto + "/" + sp.Tran, Spec: sp})
+	}
 	r.Run(cases, func(c *mon.Case) {
 		sp := c.Spec.(spec)
 		if sp.Procs > 0 {
@@ -104,6 +142,10 @@ func TestC02(t *testing.T) {
 			runRace(c, sp)
 		case "inflightloss":
 			runInflightLoss(c, sp)
+		case "knockvt":
+			runKnockVT(c, sp)
+		case "knockreal":
+			runKnockReal(c, sp)
 		}
 	})
 }
@@ -1141,4 +1183,382 @@ func runInflightLoss(c *mon.Case, sp spec) {
 	c.Count("inflight_loss_messages_checked", n)
 	c.Nontrivial()
 	c.Sig("inflightloss|%s|%d", sp.Proto, n)
+}
+
+// ---------------------------------------------------------------------------
+// knocking: "further connection attempts are refused without disturbing the established
+// conversation, and succeed once the first peer has gone" — seen from the peer that is waiting.
+//
+// A PAIR socket that already has a partner accepts the transport connection of a second peer and
+// closes it at once.  The waiting peer's socket sees a connection that attaches and is lost within
+// microseconds, again and again, possibly while its application is still busy in the
+// PipeEventAttached hook of that very connection.  It has to keep trying, so that it gets through
+// as soon as the other side is free.
+
+const knockMaxTimer = 20 * time.Millisecond // above every reconnect interval these cases configure (<= 10 ms)
+
+// sendersSettled waits until no sender goroutine of a PAIR-family pipe is between two waits: one
+// that belongs to a connection already taken away (its stop channel is closed, but it has not run
+// since) could still pick the next message out of the socket's send queue and lose it with its dead
+// connection, which the property allows.  After this gate every such goroutine is parked in its
+// select (i.e. serves a live connection), so nothing may be lost any more.
+func sendersSettled(c *mon.Case) bool {
+	r := mon.Await(func() bool {
+		for _, g := range mon.Dump() {
+			if (g.HasFrame("pair.(*pipe).sender") || g.HasFrame("pair1.(*pipe).sender")) && g.State != "select" && !g.HasFrame("vt.(*Pipe).Send") {
+				return false
+			}
+		}
+		return true
+	}, mon.AwaitOpts{})
+	if r.V != mon.Done {
+		c.Inconclusive("sender goroutines of connections already lost have not finished (%v)", r.V)
+		return false
+	}
+	return true
+}
+
+func knockDialOpts(c *mon.Case, s mangos.Socket, sp spec) map[string]interface{} {
+	opts := map[string]interface{}{
+		mangos.OptionReconnectTime:    time.Duration(sp.Reconn) * time.Millisecond,
+		mangos.OptionMaxReconnectTime: time.Duration(sp.MaxRec) * time.Millisecond,
+		mangos.OptionDialAsynch:       sp.Asynch,
+	}
+	if c.Rand.Intn(2) == 0 { // the same settings as socket defaults, inherited by the dialer
+		for n, v := range opts {
+			if err := s.SetOption(n, v); err != nil {
+				c.Inconclusive("setup: SetOption(%s): %v", n, err)
+			}
+		}
+		return map[string]interface{}{}
+	}
+	return opts
+}
+
+// runKnockVT: the socket under test is the waiting peer; the harness plays the transport of the
+// busy PAIR socket on the other side (Script: one letter per attempt that is turned away) and is
+// free from then on.
+func runKnockVT(c *mon.Case, sp spec) {
+	s := hx.MustSock(c, sp.Proto)
+	name := hx.Uniq("c02k")
+	D := vt.D(name)
+	c.Cleanup(func() { vt.Forget(name) })
+	D.SetDefault(vt.Outcome{Kind: vt.Succeed})
+	turned, failed := 0, 0
+	for _, ch := range sp.Script {
+		switch ch {
+		case 'D':
+			D.Script(vt.Outcome{Kind: vt.SucceedDrop})
+			turned++
+		case 'L':
+			D.Script(vt.Outcome{Kind: vt.Succeed})
+			turned++
+		default:
+			D.Script(vt.Outcome{Kind: vt.Refuse})
+			failed++
+		}
+	}
+	w := &hx.PipeWatch{}
+	count := hx.WatchPipesFunc(w)
+	delay := time.Duration(100+c.Rand.Intn(400)) * time.Microsecond
+	s.SetPipeEventHook(func(ev mangos.PipeEvent, p mangos.Pipe) {
+		if ev == mangos.PipeEventAttached {
+			switch sp.Hook {
+			case "sleep": // an application that takes a moment to note each new connection
+				mon.Sleep(delay)
+			case "waitclose": // ... or just long enough for the loss of this connection to be noticed
+				if tp := D.LastPipe(); tp != nil {
+					if cl, _, _ := tp.Closed(); cl {
+						for {
+							ver := vt.Activity()
+							if tp.LibClosed() {
+								break
+							}
+							vt.WaitActivity(ver)
+						}
+						mon.Sleep(delay / 4)
+					}
+				}
+			}
+		}
+		count(ev, p)
+	})
+	opts := knockDialOpts(c, s, sp)
+	if c.Undecided() {
+		return
+	}
+	d, err := s.NewDialer(vt.Addr(name), opts)
+	if err != nil {
+		c.Inconclusive("setup: NewDialer: %v", err)
+		return
+	}
+	dial := mon.Go("Dial", func() (interface{}, error) { return nil, d.Dial() })
+	kinds := map[byte]string{'D': "closed-before-dial-returned", 'L': "closed-after-dial-returned", 'R': "dial-failed"}
+	for i := 0; i <= len(sp.Script); i++ {
+		i := i
+		res := mon.Await(func() bool { l := D.Log(); return len(l) > i && l[i].End != 0 }, mon.AwaitOpts{MaxTimer: knockMaxTimer})
+		switch {
+		case res.V == mon.Stuck && i == 0:
+			c.Violate("pair/dial-never-attempted", "Dial on a %s socket (DialAsynch=%v) never called the transport: stuck after %v\n%s", sp.Proto, sp.Asynch, res.Waited, res.Dump)
+			return
+		case res.V == mon.Stuck:
+			c.Violate("pair/turned-away-peer-stops-redialing:after-"+kinds[sp.Script[i-1]],
+				"a waiting %s peer (ReconnectTime=%dms MaxReconnectTime=%dms DialAsynch=%v, PipeEventAttached hook: %s) was turned away by the busy socket on the other side (attempts so far: %q of %q; D = connection accepted and closed by the peer before Dial returned, L = right after, R = not accepted) and made no attempt %d: its dialer has stopped, so it cannot get through once the first peer has gone. %d connections attached, %d detached. Stuck after %v — every goroutine parked, no reconnect timer left:\n%s",
+				sp.Proto, sp.Reconn, sp.MaxRec, sp.Asynch, sp.Hook, sp.Script[:i], sp.Script, i+1, w.Attached(), w.Detached(), res.Waited, res.Dump)
+			c.Count("knock_attempts_seen", i)
+			return
+		case res.V != mon.Done:
+			c.Inconclusive("connection attempt %d of the waiting peer not seen after %v, process still active", i+1, res.Waited)
+			return
+		}
+		if i < len(sp.Script) && sp.Script[i] == 'L' {
+			if c.Rand.Intn(2) == 0 {
+				mon.Sleep(time.Duration(c.Rand.Intn(100)) * time.Microsecond)
+			}
+			D.Log()[i].Pipe.Drop()
+		}
+	}
+	c.Count("knock_attempts_seen", len(sp.Script)+1)
+	if !c.AwaitOrViolate("pair/dial-stuck", "Dial returning", dial.Done, mon.AwaitOpts{MaxTimer: knockMaxTimer}) {
+		return
+	}
+	if _, err, _ := dial.Result(); err != nil {
+		c.Inconclusive("setup: Dial: %v", err)
+		return
+	}
+	// the other side is free now: the connection just made stays, and the conversation works
+	fp := D.Log()[len(sp.Script)].Pipe
+	if !c.AwaitOrViolate("pair/admitted-connection-not-attached", fmt.Sprintf("the connection made once the other side was free (attempt %d) being attached", len(sp.Script)+1), func() bool { return w.Attached() >= turned+1 }, mon.AwaitOpts{MaxTimer: knockMaxTimer}) {
+		return
+	}
+	if cl, byLib, _ := fp.Closed(); cl && byLib {
+		c.Violate("pair/admitted-connection-closed", "the waiting %s peer closed the connection it made once the other side was free", sp.Proto)
+		return
+	}
+	if !sendersSettled(c) {
+		return
+	}
+	if !vtExchange(c, s, fp, sp.Proto, sp.Msgs, "after-knocking") {
+		return
+	}
+	for i, p := range D.Pipes() {
+		if p != fp && p.SentCount() != 0 {
+			c.Violate("pair/queue:after-knocking", "connection %d (turned away) carried %d message(s) although nothing had been sent yet", i, p.SentCount())
+		}
+	}
+	c.Count("knock_turned_away", turned)
+	c.Count("knock_dial_failures", failed)
+	c.Count("knock_admitted", 1)
+	c.Count("messages", 2*sp.Msgs)
+	c.Nontrivial()
+	c.Sig("knockvt|%s|%s|%s|%v", sp.Proto, sp.Script, sp.Hook, sp.Asynch)
+}
+
+// vtExchange: n messages from the socket to the vt peer and n back, each exactly once, unchanged, in order.
+func vtExchange(c *mon.Case, s mangos.Socket, p *vt.Pipe, proto string, n int, ctx string) bool {
+	v1 := strings.HasSuffix(proto, "pair1")
+	raw1 := proto == "xpair1"
+	nonce := hx.Uniq("n")
+	base := p.SentCount()
+	for q := 0; q < n; q++ {
+		msg := payload(nonce, 0, 0, q)
+		k := mon.Go(fmt.Sprintf("Send#%d", q), func() (interface{}, error) {
+			if raw1 {
+				m := mangos.NewMessage(64)
+				m.Header = append(m.Header, 0, 0, 0, 0)
+				m.Body = append(m.Body, msg...)
+				return nil, s.SendMsg(m)
+			}
+			return nil, s.Send(msg)
+		})
+		if !c.AwaitOrViolate("pair/send-stuck:"+ctx, fmt.Sprintf("Send %d with the peer connected", q), k.Done, mon.AwaitOpts{}) {
+			return false
+		}
+		if _, err, _ := k.Result(); err != nil {
+			c.Violate("pair/send-error:"+ctx, "Send %d with the peer connected returned %v", q, err)
+			return false
+		}
+	}
+	if !c.AwaitOrViolate("pair/accepted-message-not-delivered:"+ctx, fmt.Sprintf("all %d accepted messages reaching the connected peer", n), func() bool { return p.SentCount() >= base+n }, mon.AwaitOpts{}) {
+		return false
+	}
+	sl := p.SentFrom(base)
+	if len(sl) != n {
+		c.Violate("pair/queue:"+ctx, "%d messages sent, the peer's connection carried %d", n, len(sl))
+		return false
+	}
+	for q, x := range sl {
+		if want := payload(nonce, 0, 0, q); !bytes.Equal(x.Body, want) {
+			c.Violate("pair/queue:"+ctx, "transmission %d to the peer is %q, want %q", q, x.Body, want)
+			return false
+		}
+	}
+	for q := 0; q < n; q++ {
+		b := payload(nonce, 1, 0, q)
+		if v1 {
+			b = append([]byte{0, 0, 0, 1}, b...) // PAIR1 wire header: hop count
+		}
+		p.Inject(b)
+	}
+	for q := 0; q < n; q++ {
+		k := mon.Go(fmt.Sprintf("Recv#%d", q), func() (interface{}, error) { v, e := s.Recv(); return v, e })
+		if !c.AwaitOrViolate("pair/recv-stuck:"+ctx, fmt.Sprintf("Recv %d of %d messages the peer sent", q, n), k.Done, mon.AwaitOpts{}) {
+			return false
+		}
+		v, err, _ := k.Result()
+		if want := payload(nonce, 1, 0, q); err != nil || !bytes.Equal(v.([]byte), want) {
+			c.Violate("pair/queue:"+ctx, "Recv %d returned (%q, %v), want %q", q, v, err, want)
+			return false
+		}
+	}
+	return true
+}
+
+// runKnockReal: three real sockets.  srv listens and converses with first; second dials the same
+// address and is turned away Peers times while the conversation goes on; then first leaves and
+// second must be admitted and able to converse.
+func runKnockReal(c *mon.Case, sp spec) {
+	srv := hx.MustSock(c, sp.Proto)
+	first := hx.MustSock(c, hx.PeerOf[sp.Proto])
+	second := hx.MustSock(c, sp.Peer)
+	ws := &hx.PipeWatch{}
+	countSrv := hx.WatchPipesFunc(ws)
+	var conns atomic.Int64 // transport connections srv accepted
+	srv.SetPipeEventHook(func(ev mangos.PipeEvent, p mangos.Pipe) {
+		if ev == mangos.PipeEventAttaching {
+			conns.Add(1)
+		}
+		countSrv(ev, p)
+	})
+	wf := hx.WatchPipes(first)
+	l, _, err := hx.Connect(srv, first, sp.Tran)
+	if err != nil {
+		c.Inconclusive("setup: %v", err)
+		return
+	}
+	if !hx.WaitAttached(c, ws, 1, "first PAIR peer (listening side)") || !hx.WaitAttached(c, wf, 1, "first PAIR peer (dialing side)") {
+		return
+	}
+	nonce := hx.Uniq("n")
+	seq := 0
+	// one message from a to b, received unchanged as the next one
+	pass := func(a, b mangos.Socket, dir int, sig, what string) bool {
+		msg := payload(nonce, dir, 0, seq)
+		seq++
+		k := mon.Go("Send+Recv", func() (interface{}, error) {
+			if err := a.Send(msg); err != nil {
+				return nil, fmt.Errorf("Send: %w", err)
+			}
+			v, err := b.Recv()
+			return v, err
+		})
+		if !c.AwaitOrViolate(sig+":stuck", what, k.Done, mon.AwaitOpts{MaxTimer: knockMaxTimer}) {
+			return false
+		}
+		v, err, _ := k.Result()
+		if err != nil {
+			c.Violate(sig+":error", "%s: %v", what, err)
+			return false
+		}
+		if !bytes.Equal(v.([]byte), msg) {
+			c.Violate(sig+":content", "%s: received %q, want %q", what, v, msg)
+			return false
+		}
+		return true
+	}
+	converse := func(n int) bool {
+		for i := 0; i < n; i++ {
+			if !pass(first, srv, 0, "pair/conversation-disturbed:while-refusing", "message from the established peer to the socket that is turning a second peer away") ||
+				!pass(srv, first, 1, "pair/conversation-disturbed:while-refusing", "message to the established peer from the socket that is turning a second peer away") {
+				return false
+			}
+		}
+		return true
+	}
+	if !converse(2) {
+		return
+	}
+	// the second peer starts knocking
+	w2 := &hx.PipeWatch{}
+	count2 := hx.WatchPipesFunc(w2)
+	delay := time.Duration(100+c.Rand.Intn(400)) * time.Microsecond
+	second.SetPipeEventHook(func(ev mangos.PipeEvent, p mangos.Pipe) {
+		if ev == mangos.PipeEventAttached && sp.Hook == "sleep" {
+			mon.Sleep(delay) // an application that takes a moment to note each new connection
+		}
+		count2(ev, p)
+	})
+	opts := knockDialOpts(c, second, sp)
+	if c.Undecided() {
+		return
+	}
+	if hx.NeedsTLS(sp.Tran) {
+		_, cli := hx.TLSConfigs()
+		opts[mangos.OptionTLSConfig] = cli
+	}
+	d, err := second.NewDialer(l.Address(), opts)
+	if err != nil {
+		c.Inconclusive("setup: NewDialer: %v", err)
+		return
+	}
+	dial := mon.Go("Dial", func() (interface{}, error) { return nil, d.Dial() })
+	if r := dial.Wait(mon.AwaitOpts{MaxTimer: knockMaxTimer}); r.V != mon.Done {
+		c.Inconclusive("setup: Dial of the second peer: %v", r.V)
+		return
+	}
+	if _, err, _ := dial.Result(); err != nil {
+		c.Inconclusive("setup: Dial of the second peer: %v", err)
+		return
+	}
+	rounds := 0
+	for k := 1; k <= sp.Peers; k++ {
+		k := k
+		r := mon.Await(func() bool { return conns.Load() >= int64(1+k) }, mon.AwaitOpts{MaxTimer: knockMaxTimer})
+		if r.V != mon.Done {
+			// the verdict is the one below: whether it gets through once the first peer has gone
+			c.Logf("attempt %d of the second peer not seen (%v after %v)", k, r.V, r.Waited)
+			if r.V == mon.Inconclusive {
+				c.Inconclusive("attempt %d of the second peer not seen after %v, process still active", k, r.Waited)
+				return
+			}
+			break
+		}
+		if !converse(1) {
+			return
+		}
+		rounds++
+	}
+	seen := int(conns.Load()) - 1
+	if n := ws.Attached(); n != 1 {
+		c.Violate("pair/second-peer-attached", "%d connections were attached to the %s socket while its first peer was connected", n, sp.Proto)
+		return
+	}
+	c.Count("knock_turned_away", seen)
+	c.Count("knock_conversation_roundtrips", rounds)
+	// the first peer leaves
+	first.Close()
+	if !c.AwaitOrViolate("pair/waiting-peer-not-admitted-after-first-left",
+		fmt.Sprintf("a %s peer (ReconnectTime=%dms MaxReconnectTime=%dms DialAsynch=%v, PipeEventAttached hook: %s) that was turned away %d time(s) over %s by a %s socket with an established peer being admitted after that peer has gone (it made %d connections, %d detached)",
+			sp.Peer, sp.Reconn, sp.MaxRec, sp.Asynch, sp.Hook, seen, sp.Tran, sp.Proto, w2.Attached(), w2.Detached()),
+		func() bool { return ws.Attached() >= 2 }, mon.AwaitOpts{MaxTimer: knockMaxTimer}) {
+		return
+	}
+	if !sendersSettled(c) {
+		return
+	}
+	seq = 0
+	for i := 0; i < sp.Msgs; i++ {
+		if !pass(srv, second, 2, "pair/new-peer-conversation", "message to the peer admitted after the first one left") {
+			return
+		}
+	}
+	for i := 0; i < sp.Msgs; i++ {
+		if !pass(second, srv, 3, "pair/new-peer-conversation", "message from the peer admitted after the first one left") {
+			return
+		}
+	}
+	c.Count("knock_admitted", 1)
+	c.Count("messages", 2*sp.Msgs+4+2*rounds)
+	c.Nontrivial()
+	c.Sig("knockreal|%s|%s|%s|%s|%v|%d", sp.Proto, sp.Peer, sp.Tran, sp.Hook, sp.Asynch, seen*4/(sp.Peers+1))
 }
